@@ -111,6 +111,22 @@ func (c *Ctx) judgeLife(prop string, sc LifeScenario, r LifeResult, tag string) 
 			}
 		}
 	}
+	if r.ReconnectStuck != "" && (strings.Contains(r.ReconnectStuck, "Connect") || strings.Contains(r.ReconnectStuck, "initialise")) &&
+		(strings.Contains(r.ReconnectStuck, "Lock]") || strings.Contains(r.ReconnectStuck, "[semacquire]") || strings.Contains(r.ReconnectStuck, "[chan ")) {
+		c.SpecFail("spec", desc, "", "the client cannot connect again: a Connect made after DISCONNECTED had not returned after 10 s; library goroutines: "+r.ReconnectStuck, rp)
+	}
+	if sc.CarelessSender { // its lines may reach the new connection's queue before the registration is dispatched: they are not part of it
+		var t []string
+		for _, l := range r.Transcript {
+			if !strings.HasPrefix(l, "PRIVMSG #c :user out ") {
+				t = append(t, l)
+			}
+		}
+		if len(t) < 2 { // the snapshot was taken before the registration had reached the wire behind them: nothing to judge
+			t = nil
+		}
+		r.Transcript = t
+	}
 	if sc.Reconnect != "" && r.Stuck == "" && len(r.Transcript) > 0 {
 		if sc.Flood && (len(r.Transcript) < 2 || r.Transcript[0] != "NICK me" || r.Transcript[1] != "USER ident 12 * :Real") {
 			c.SpecFail("spec", desc, "", fmt.Sprintf("registration not sent on the fresh connection: %q", r.Transcript), rp)
@@ -297,6 +313,11 @@ func c06(c *Ctx) {
 			LifeScenario{Cause: stalledCause, Closers: 1, Flood: true, UseCtx: true, SlowServer: true, PeerStalled: true, InBacklog: 80, InSegments: 2, BacklogKind: "pings"})
 		tags = append(tags, "close-inside-disconnected-handler", "peer-stalled+backlog-of-pings")
 	}
+	// a user goroutine is still handing over lines when the connection ends (nobody waits for it; what it had left is lost
+	// with the connection); a goroutine woken by the DISCONNECTED handler connects again
+	scs = append(scs, LifeScenario{Cause: "close", Closers: 1, Flood: true, SlowServer: true, OutBacklog: 200, OutFrom: "user", CarelessSender: true, Reconnect: "goroutine", Cycles: 1},
+		LifeScenario{Cause: "eof", Closers: 1, Flood: true, SlowServer: true, OutBacklog: 200, OutFrom: "user", CarelessSender: true, Reconnect: "goroutine", Cycles: 1})
+	tags = append(tags, "user-sender-outlives-connection+reconnect", "user-sender-outlives-connection+reconnect")
 	// two goroutines call Connect on a client that is down, the first one's dial still under way when the second calls:
 	// one connection results, one call is refused, and the life cycle of that one connection is as ever
 	for _, cause := range []string{"close", "eof", "cancel"} {
@@ -445,6 +466,11 @@ func c07(c *Ctx) {
 			LifeScenario{Cause: stalledCause, Closers: 1, Flood: true, UseCtx: true, SlowServer: true, PeerStalled: true, InBacklog: 80, InSegments: 2, BacklogKind: "pings"})
 		tags = append(tags, "close-inside-disconnected-handler", "peer-stalled+backlog-of-pings")
 	}
+	// a user goroutine is still handing over lines when the connection ends (nobody waits for it; what it had left is lost
+	// with the connection); a goroutine woken by the DISCONNECTED handler connects again
+	scs = append(scs, LifeScenario{Cause: "close", Closers: 1, Flood: true, SlowServer: true, OutBacklog: 200, OutFrom: "user", CarelessSender: true, Reconnect: "goroutine", Cycles: 1},
+		LifeScenario{Cause: "eof", Closers: 1, Flood: true, SlowServer: true, OutBacklog: 200, OutFrom: "user", CarelessSender: true, Reconnect: "goroutine", Cycles: 1})
+	tags = append(tags, "user-sender-outlives-connection+reconnect", "user-sender-outlives-connection+reconnect")
 	// two goroutines call Connect on a client that is down, the first one's dial still under way when the second calls:
 	// one connection results, one call is refused, and the life cycle of that one connection is as ever
 	for _, cause := range []string{"close", "eof", "cancel"} {
